@@ -15,8 +15,8 @@ ASSUME = [
 ]
 
 
-def sess(bound, nmax, extra, bs=(64,), cs=(32, 64, 65, 256), qs=(1, 2), endings=("close",), earlies=True):
-    return S.grid_small(bound, bs=bs, cs=cs, qs=qs, nmax=nmax, endings=endings, earlies=earlies, **extra)
+def sess(bound, nmax, extra, bs=(64,), cs=(32, 64, 65, 256), qs=(1, 2), endings=("close",), earlies=True, sizes=None):
+    return S.grid_small(bound, bs=bs, cs=cs, qs=qs, nmax=nmax, endings=endings, earlies=earlies, sizes=sizes, **extra)
 
 
 def stages(tier):
@@ -28,13 +28,13 @@ def stages(tier):
                    configs=sess(1, 3 if not quick else 2, t, qs=(1, 2, 10), endings=("close", "destroy")), share=0.3,
                    what="read and write sessions, close after k of n, every single deviation"))
     st.append(dict(label="T2: ThreadSanitizer, bound 2", harness="h_session", variant="sched-tsan", chunk=1,
-                   configs=sess(2, 2, t, cs=(64,) if quick else (32, 64, 65, 256), qs=(2,) if quick else (1, 2), earlies=not quick), share=0.35))
+                   configs=sess(2, 2, t, cs=(64,) if quick else (32, 64, 65, 256), qs=(2,) if quick else (1, 2), earlies=not quick, **({"sizes": [48]} if quick else {})), share=0.35))
     st.append(dict(label="A1: AddressSanitizer + post-release points, bound 1", harness="h_session", variant="sched-asan",
                    configs=sess(1, 3 if not quick else 2, a, qs=(1, 2, 10), endings=("close", "destroy")), share=0.3,
                    what="scheduling points also right after every unlock / wait return, so the application can run between a "
                         "release and a following stale access"))
     st.append(dict(label="A2: AddressSanitizer + post-release points, bound 2", harness="h_session", variant="sched-asan", chunk=1,
-                   configs=sess(2, 2, a, cs=(64,) if quick else (32, 64, 65, 256), qs=(2,) if quick else (1, 2), earlies=not quick), share=0.5))
+                   configs=sess(2, 2, a, cs=(64,) if quick else (32, 64, 65, 256), qs=(2,) if quick else (1, 2), earlies=not quick, **({"sizes": [48]} if quick else {})), share=0.5))
     return st
 
 
